@@ -26,7 +26,8 @@ RULE = ("generated interfaces x one random rendering x a random partition into 1
         ' ; wsdl:import chains whose middle document has no types, wsdl:import cycles of two with the types in the document that is still loading, a global element and its type sharing one name across an include / same-namespace import'
         ' ; a global attribute sharing its name with an included global element'
         ' ; server-root-relative locations'
-        ' ; one document store kept across loads; locations differing in case; one namespace in an inline block and a wsdl:import-ed document')
+        ' ; one document store kept across loads; locations differing in case; one namespace in an inline block and a wsdl:import-ed document'
+        ' ; imports that resolve to nothing; what an earlier load fetched')
 ASSUMPTIONS = ["an out-of-line schema document refers only to out-of-line schema documents (it can name them by "
                "schemaLocation); an included part does not need declarations of its includer and namespaces on an "
                "import cycle are not split by includes (known finding D35 covers the excluded shape)",
